@@ -643,7 +643,7 @@ pub fn mount_mutations(full: bool) -> Vec<Mutation> {
     use crate::mountmc::MKind::*;
     let mut v = vec![
         Mutation::mount(BindFile, "{PID}/status"), Mutation::mount(BindProcFile, "{PID}/status"), Mutation::mount(Tmpfs, "{PID}"), Mutation::mount(BindDir, "{PID}"),
-        Mutation::mount(BindFile, "self"), Mutation::mount(BindFile, "thread-self"), Mutation::mount(BindDir, "{PID}/task"), Mutation::mount(BindFile, "{PID}/task/{PID}/status"),
+        Mutation::mount(BindFile, "self"), Mutation::mount(BindFile, "thread-self"), Mutation::mount(BindSymlink, "self"), Mutation::mount(BindSymlink, "thread-self"), Mutation::mount(BindDir, "{PID}/task"), Mutation::mount(BindFile, "{PID}/task/{PID}/status"),
         // (this kernel refuses mounts on top of /proc/<pid>/fd/<n> itself - ENOENT - so only the directory is raced)
         Mutation::mount(BindDir, "{PID}/fd"), Mutation::mount(Tmpfs, "{PID}/fd"),
     ];
@@ -694,6 +694,7 @@ fn judge(prop: &str, it: &Item, scen: &Scenario, w: &World, eo: &ExecOut, counts
         return Ok(v);
     }
     if prop == "C06" {
+        let worker_pid = eo.pids.first().copied().unwrap_or(0);
         if eo.timeout || eo.horizon_hit { v.push(("hang".into(), "lookup did not terminate".into())); return Ok(v); }
         match obs {
             None => v.push(("crash".into(), format!("worker died: {}", outcome_text(w, eo, 0)))),
@@ -706,6 +707,20 @@ fn judge(prop: &str, it: &Item, scen: &Scenario, w: &World, eo: &ExecOut, counts
                         if srcs.contains(&(fd.dev, fd.ino)) { v.push(("returned-overmount-source".into(), format!("returned the racing over-mount's object ({:?}) instead of the procfs entry", fd.procpath))); }
                         else if !follows && fd.fstype != PROC_MAGIC { v.push(("not-procfs".into(), format!("returned an object that is not on procfs ({:?}, fstype 0x{:x})", fd.procpath, fd.fstype))); }
                         else if !follows && scen.op.path.as_deref() == Some("status") && fd.mode & libc::S_IFMT != libc::S_IFREG { v.push(("wrong-type".into(), format!("status is not a regular file: mode {:o}", fd.mode))); }
+                        // the object of the REQUESTED path: <pid>/status resp. <pid>/task/<tid>/status of the calling process, nobody else's
+                        else if !follows && scen.op.name == "proc_open" {
+                            let pid = eo.events.first().map(|_| ()).and_then(|_| o.fds_after.first().map(|_| ())).map(|_| 0).unwrap_or(0);
+                            let _ = pid;
+                            if let Some(pp) = &fd.procpath {
+                                let sub = scen.op.path.clone().unwrap_or_default();
+                                let tail = sub.rsplit('/').next().unwrap_or("").to_string();
+                                let comps: Vec<&str> = pp.trim_end_matches(" (deleted)").split('/').filter(|c| !c.is_empty() && *c != "proc").collect();
+                                // first component must be the worker's own pid (reported by the supervisor)
+                                let want_pid = worker_pid.to_string();
+                                let ok = comps.last().map(|c| *c == tail).unwrap_or(false) && comps.first().map(|c| *c == want_pid).unwrap_or(false);
+                                if !ok { v.push(("wrong-procfs-object".into(), format!("returned {:?}, not the calling process's own {}", pp, sub))); }
+                            }
+                        }
                     }
                     if let Some(t) = &o.text { if scen.op.name == "proc_readlink" && !t.ends_with("/src/file40") { v.push(("wrong-link-body".into(), format!("readlink of fd/40 gave {:?}", t))); } }
                 } else if scen.path == "private" {
